@@ -56,7 +56,7 @@ class Src:
             if "items" in it:
                 yield from self._walk(it["items"])
 
-    def find(self, qual, kind=None, trait=None, nth=None):
+    def find(self, qual, kind=None, trait=None, nth=None, header_rx=None):
         """Find an item by qualified name. For impls, qual is the self type and
         `trait` selects `impl Trait for T` (None = inherent)."""
         hits = []
@@ -66,6 +66,8 @@ class Src:
             if kind and it["kind"] != kind:
                 continue
             if it["kind"] == "impl" and it.get("trait") != trait:
+                continue
+            if header_rx is not None and not re.search(header_rx, self.text(it["start"], it.get("open", it["span"][1]))):
                 continue
             hits.append(it)
         if nth is not None:
@@ -491,6 +493,14 @@ class Unit:
                 raise Undecided(f"attribute #[{a['name']}] on {key} outside E1 catalogue")
             self._log("E1", src, a["span"][0], src.text(*a["span"]), "")
         nodes = it["nodes"]
+        # E14: `e?` on a Result written out as the match the language reference defines it to be,
+        # so that the error conversion is a visible call of the file's own From impl
+        if getattr(self, "desugar_try", False):
+            for n in nodes:
+                if n["k"] == "try":
+                    eds.append((n["span"][0], n["span"][0], "(match ", None))
+                    eds.append((n["pos"], n["pos"] + 1, " { Ok(__v) => __v, Err(__e) => return Err(::core::convert::From::from(__e)) })", None))
+                    self._log("E14", src, n["pos"], "?", "match .. { Ok(v) => v, Err(e) => return Err(From::from(e)) }")
         # E2
         if self.drop_async:
             if sig["async"]:
